@@ -25,7 +25,7 @@ def forced_classes(rng, n):
     """Shapes that the uniform generator reaches too rarely: UNION operands whose column sets were built
     differently, a join that hides a shared column, a calculation that re-creates a hidden tag under a sort,
     joins with the join identity and a predicate."""
-    out = []
+    out = [(p, False, "fixed_window") for p in sp.fixed_window_cases()]
     pool = [K(i) for i in range(1, 9)] + [N(i) for i in range(1, 9)]
     for _ in range(n):
         kind = rng.choice(["union_order", "hidden_join", "recreate", "identity_join", "shared_leaf", "dedup_proj", "window_then", "window_then", "mutual_hidden", "self_join", "compound_order"])
